@@ -150,7 +150,7 @@ func (e event) term() string {
 
 var (
 	kindName  = map[int]string{evRegistered: "KR", evProgressed: "KP", evConcluded: "KC"}
-	startName = []string{"SOK", "SAL", "SNP", "SPS", "SOK"}
+	startName = []string{"SOK", "SAL", "SNP", "SPS", "SAL"} // an error with an unknown text is a refusal (all refusals compare equal)
 	stopName  = []string{"TOK", "TRF", "TNW", "TPN", "TPN"}
 )
 
@@ -413,10 +413,10 @@ func (w *world) stop(ch int) (res int) {
 			done <- stopOK
 		case local.IsErrSubChannelsPresent(err):
 			done <- stopRefused
-		case strings.Contains(err.Error(), "channel not registered"):
-			done <- stopNotWatched
 		default:
-			done <- stopOther
+			// any other error: the channel is not (or no longer) watched; the text of the message is
+			// not part of the property
+			done <- stopNotWatched
 		}
 	}()
 	select {
